@@ -50,6 +50,8 @@ def w_independence(w, cfg):
     tag = f"{kname}[{'robust' if cfg.get('robust') else 'plain'}{',' + special if special else ''}]"
     kp = known_preds(cfg)
 
+    emitted = []
+
     def build(abstract):
         it = S.new_interp()
         if abstract:
@@ -62,12 +64,14 @@ def w_independence(w, cfg):
         facts = px.facts(nd1) + px.facts(nd2) + pfacts + [nd1 != nd2]
         it.assume(*facts)
         st1, st2 = State(), State()
+        if special is None and kname != "ws2doptvplc":
+            it.A.watch = {"nd1", "nd2"}      # float64 kernels: the placeholder may be as large as the dtype allows (GDAL's 'lowest')
         r1 = S.call_kernel(it, st1, kname, kernel_args(kname, cells_of(kname, px, nd1), nd1, par))
         n_ob = len(it.obligations)
         r2 = S.call_kernel(it, st2, kname, kernel_args(kname, cells_of(kname, px, nd2, special), nd2, par))
 
-        def conc(m):
-            d = {"kernel": kname, "data": [C.model_value(m, x) if v else None for x, v in zip(px.xs, px.valid)],
+        def conc(m, huge=False):
+            d = {"kernel": kname, "huge": huge, "data": [C.model_value(m, x) if v else None for x, v in zip(px.xs, px.valid)],
                  "nd1": C.model_value(m, nd1), "nd2": C.model_value(m, nd2), "special": special, "robust": cfg.get("robust", False),
                  "lc": cfg.get("lc", 0.7), "grid": cfg.get("grid", 3)}
             for k in ("lam", "p"):
@@ -107,6 +111,17 @@ def w_independence(w, cfg):
                     if ob.kind == "cast-range" and k >= n_ob:
                         claims.append((f"{tag}.nonfinite_reaches_output", ob.claim, dict(kw, guard=ob.guard)))
                         break
+        if it.A.watch_hits and not emitted:
+            emitted.append(True)
+            # a placeholder-dependent value is multiplied by another unknown before its zero weight removes it: with a placeholder
+            # near the float64 limit that product overflows (inf * 0 = NaN). Reaching such a product is the obligation (claim False):
+            # the solver only has to produce data satisfying the input assumptions, the replayer runs it with the huge placeholder
+            name = f"{tag}.placeholder_magnitude_never_enters_a_product_of_unknowns"
+            v, m, dt = C.check_sat(list(facts), 20000)
+            w.res.queries.append({"name": name, "verdict": "sat" if v == "sat" else v, "time": round(dt, 4), "hash": "watch:" + name + str(cfg["valid"]),
+                                  "nvars": 1, "config": w.config})
+            if v == "sat":
+                w.res.candidates.append({"obligation": name, "config": w.config, "known": None, "input": C.jsonable(conc(m, huge=True))})
         return {"assume": facts + it.cast_assumptions, "lemmas": list(it.A.lemmas), "claims": claims, "conc": conc,
                 "encoded": dict(it.encoded), "facts": facts}
     S.two_stage(w, build, inline=not cfg.get("robust"))
